@@ -9,7 +9,7 @@ META = {
     'technique': 'TLC exhaustive model check of Protect.tla (all action sequences <= 4) + replay of every transition of the model on real '
                  'Sessions with hide_protected (canary programs) + PEEK sweep + random histories, all validated by the trace spec Protect_Trace.tla',
     'text': 'Protect.tla states the property as the demanded-outcome relation Must (listed operation on a protected program => Illegal function call; '
-            'SAVE ,P => succeeds; RUN => as the unprotected original) plus NoLeak. TLC checks NoLeak / flag invariants over all sequences of <= 4 of the 55 '
+            'SAVE ,P => succeeds; RUN => as the unprotected original) plus NoLeak. TLC checks NoLeak / flag invariants over all sequences of <= 4 of the 52 '
             'actions (with and without a chained statement, in every error-trap state) and emits every transition; a greedy edge cover executes ALL of them as '
             'direct-mode command lines on real sessions whose protected program embeds random canary strings (REM, DATA, string literals, variable names); after every '
             'action the output stream, files written, printer output, text screen and all string variables are scanned for any >= 3-byte canary fragment. '
